@@ -681,7 +681,7 @@ func (p *Printer) unknownID() int {
 		return 0
 	}
 	ids := []int{0}
-	for i := 1; i < len(p.tab.Slots); i++ {
+	for i := 1; i < len(p.tab.Slots)-p.tab.NLocal; i++ { // import placeholders only
 		if !p.tab.Slots[i].Known {
 			ids = append(ids, i)
 		}
